@@ -131,6 +131,7 @@ func RunOne(t *testing.T, req RunReq) (res RunRes) {
 			if traceF != nil {
 				env.S.TraceOut = func(s string) { fmt.Fprintln(traceF, s) }
 			} else if req.Verbose {
+				env.S.TraceAll = os.Getenv("SIM_VERBOSE") == "2"
 				env.S.TraceOut = func(s string) { fmt.Fprintln(os.Stderr, s) }
 			}
 			env.S.Run(func() { sc.Run(env, &plan) })
